@@ -860,6 +860,43 @@ def lookalike(rng, hash_table_items, with_storage=False, allow_value_side=False)
     return a.assemble(), info
 
 
+def hash_constants(rng, items):
+    """Straight-line programs whose constants are the literal keccak hashes of small slot numbers (what an optimising
+    compiler emits for dynamic arrays): alone, offset by constants and by call data, combined with each other, as the
+    slot word of a mapping hash, negated; used as storage keys, as stored values, in logs. These are the leaves that a
+    lifting pass rewrites into trees (`sha3(n)`), so sizes memoised on leaves are exercised after lifting."""
+    a = evm.Asm()
+    feats = {"hash-constants"}
+    for _ in range(rng.randint(1, 6)):
+        h, _i = rng.choice(items)
+        a.emit(("push", h, 32))
+        k = rng.random()
+        if k < 0.2:
+            a.emit(4, "CALLDATALOAD", "ADD")
+        elif k < 0.35:
+            a.emit(rng.randint(0, 7), "ADD")
+        elif k < 0.5:
+            h2, _j = rng.choice(items)
+            a.emit(("push", h2, 32), rng.choice(["ADD", "XOR", "AND", "LT", "SUB"]))
+        elif k < 0.65:
+            a.emit(0x20, "MSTORE", "CALLER", 0, "MSTORE", 0x40, 0, "SHA3")
+        elif k < 0.75:
+            a.emit(rng.choice(["NOT", "ISZERO"]))
+        use = rng.random()
+        if use < 0.35:
+            a.emit("SLOAD", 0x80, "MSTORE")
+        elif use < 0.6:
+            a.emit("CALLVALUE", "SWAP1", "SSTORE")
+        elif use < 0.8:
+            a.emit(rng.randint(0, 5), "SSTORE")
+        elif use < 0.9:
+            a.emit(0xa0, "MSTORE", 0x20, 0xa0, "LOG0")
+        else:
+            a.emit("POP")
+    a.emit("STOP")
+    return a.assemble(), feats
+
+
 def literal_keys(rng, B, size_hint=None):
     """Programs performing SLOAD / SSTORE with literal constant keys placed on the first path, behind forks, in
     threads that die afterwards, and amid noise. Returns (code, keys)."""
